@@ -13,8 +13,14 @@
 #include <vector>
 #include <string>
 #include <memory>
+#include <algorithm>
 #include <bluetoe/channel_map.hpp>
 #include "trace.hpp"
+
+// the sanitizer hooks of trace.hpp are inline: take their address so that they are emitted and override the weak
+// defaults of the sanitizer runtime (a sanitizer report becomes a {"e":"Crash"} event instead of a lost trace)
+static void (*volatile keep_asan_hook)() = &__asan_on_error;
+static void (*volatile keep_ubsan_hook)() = &__ubsan_on_report;
 
 using bluetoe::link_layer::channel_map;
 
@@ -101,6 +107,7 @@ static int run_ll(const char* script, const char* trace) {
 
         g_counters.clear();
         std::unique_ptr<ll_t> ll(new ll_t());
+        const unsigned sto = std::max(16u, ((lat + 1) * 15 + 9) / 10 + 1);
         const std::vector<std::uint8_t> connect_ind = {
             0xc5, 0x22,
             0x3c, 0x1c, 0x62, 0x92, 0xf0, 0x48,         // InitA
@@ -111,7 +118,7 @@ static int run_ll(const char* script, const char* trace) {
             0x02, 0x00,                                 // transmit window offset
             0x06, 0x00,                                 // interval 7.5 ms
             std::uint8_t(lat), std::uint8_t(lat >> 8),  // peripheral latency
-            0x10, 0x00,                                 // supervision timeout 160 ms
+            std::uint8_t(sto), std::uint8_t(sto >> 8),  // supervision timeout: 160 ms or just above (latency+1)*2*interval
             cmap[0], cmap[1], cmap[2], cmap[3], cmap[4],
             std::uint8_t(0xa0 | hop)                    // hop increment, SCA
         };
